@@ -327,6 +327,97 @@ def plus_cases(g, rng, thorough):
         one("plus-cross", opts=o, **a)
 
 
+def decoded_picture_cases(ctx, thorough):
+    """histories through decode_next_picture: what a decoded picture reports (temporal reference, type, quantizer) and the
+    size it has - the size in force, which a header that does not retransmit the format inherits through any number of
+    predecessors.  Returns (cases, expectations) with expectations[idx] = list of (tr, type, q, w, h) per call."""
+    from vlib import decsuite, picgen
+    rng = ctx.rng.fork("c06-decoded")
+    cases, exp = [], {}
+    idx = 0
+    # standard mode: a format is transmitted once (plain PTYPE size or custom PLUSPTYPE size), then chains of predicted pictures
+    # of which each either retransmits it (UFEP=001) or not (UFEP=000)
+    sizes = [(128, 96), (176, 144), (32, 16), (20, 12), (64, 48), (4, 4), (36, 100)]
+    for n in range(60 if thorough else 24):
+        w, h = sizes[n % len(sizes)]
+        chain = 1 + n % 5
+        ops, want = [], []
+        tr = rng.below(256)
+        q = rng.range(1, 31)
+        ops.append(decsuite.D(picgen.gen_picture(rng, "std", "I", w, h, tr=tr, quant=q, sparse=1, extra=[])[0].to_bytes()))
+        want.append((tr, "I", q, w, h))
+        for k in range(chain):
+            tr = (tr + 1 + rng.below(3)) % 256
+            q = rng.range(1, 31)
+            # pattern of the chain: bit k of n decides whether picture k retransmits the format
+            plus = {"ufep": 0} if ((n >> k) & 1) == 0 or (w, h) in ((128, 96), (176, 144)) else {}
+            if (w, h) in ((128, 96), (176, 144)) and ((n >> k) & 1):
+                plus = None          # a plain PTYPE header naming the standard size again
+            ops.append(decsuite.D(picgen.gen_picture(rng, "std", "P", w, h, tr=tr, quant=q, sparse=1, extra=[], plus=plus)[0].to_bytes()))
+            want.append((tr, "P", q, w, h))
+        cases.append((idx, 0, ops)); exp[idx] = want; idx += 1
+    # Sorenson: every size code, version 0 and 1, I then P (a disposable picture every third time)
+    from vlib import h263spec as S
+    sor = [(0, (200, 36)), (0, (255, 1)), (1, (256, 8)), (1, (24, 300)), (2, (352, 288)), (3, (176, 144)), (4, (128, 96)), (5, (320, 240)), (6, (160, 120))]
+    for n, (code, (w, h)) in enumerate(sor):
+        for mode in ("v0", "v1"):
+            ops, want = [], []
+            tr = rng.below(256); q = rng.range(1, 31)
+            for k, pt in enumerate(("I", "P", "D" if n % 3 == 0 else "P")):
+                b = S.Bits()
+                b.extend(picgen.header_bits(mode, pt, tr, w, h, q, deblock=k % 2, size_code=code))
+                mbs = ((w + 15) // 16) * ((h + 15) // 16)
+                for _ in range(mbs):
+                    if pt == "I":
+                        mb = {"kind": "coded", "type": S.INTRA, "cbp": [0] * 6, "blocks": [(77, [])] * 6}
+                        b.extend(S.macroblock_bits("I", mb, mode))
+                    else:
+                        b.extend(S.macroblock_bits("P", {"kind": "uncoded"}, mode))
+                ops.append(decsuite.D(b.to_bytes()))
+                want.append((tr, pt, q, w, h))
+                tr = (tr + 1) % 256; q = rng.range(1, 31)
+            cases.append((idx, 1, ops)); exp[idx] = want; idx += 1
+    return cases, exp
+
+
+def run_decoded_pictures(ctx, thorough, broken):
+    from vlib import decsuite
+    cases, exp = decoded_picture_cases(ctx, thorough)
+    io = decsuite.run_impl(ctx, "c06dec", cases)
+    mo = decsuite.run_model(ctx, "c06dec", cases)
+    found = False
+    nontriv = set()
+    for (idx, o, ops) in cases:
+        toks = io.get(idx, [])
+        for k, (tr, pt, q, w, h) in enumerate(exp[idx]):
+            t = decsuite.parse_tok(toks[k]) if k < len(toks) else {"cls": "missing", "last": None}
+            problem = None
+            if t["cls"] != "ok" or not t["last"]:
+                problem = "call %d (%s picture, tr %d) is rejected: %s" % (k, pt, tr, t["cls"])
+            else:
+                m = __import__("re").match(r"^\[(.*) (\d+)x(\d+)/(\d+) ", t["last"])
+                hdrs, gw, gh, cw = m.group(1), int(m.group(2)), int(m.group(3)), int(m.group(4))
+                got = (int(decsuite.hdr_field(hdrs, "tr")), decsuite.hdr_field(hdrs, "type"), int(decsuite.hdr_field(hdrs, "q")), gw, gh)
+                if got != (tr, pt, q, w, h) or cw != (w + 1) // 2:
+                    problem = "call %d reports (tr, type, quantizer, width, height) = %s, encoded %s" % (k, got, (tr, pt, q, w, h))
+            if problem:
+                ctx.violation({"kind": "decoded-picture", "class_key": problem[:18], "options": o, "ops": ops, "call": k,
+                               "spec": "every picture of the history is accepted and reports the temporal reference, type and quantizer of its header and the size in force "
+                                       "(the format last transmitted, inherited by headers that do not retransmit it)",
+                               "implementation": problem}, problem)
+                found = True
+                break
+        else:
+            nontriv.add(idx)
+            if not decsuite.same_shape(mo.get(idx), io.get(idx), upto_crash=True):
+                broken.append("correspondence decoded-picture: model and implementation differ on history %d" % idx)
+    ctx.count("decoded-picture (histories through decode_next_picture: reported header fields and size in force)", len(cases), nontriv,
+              sample={"options": cases[0][1], "ops": [x[:60] for x in cases[0][2]]},
+              note="standard mode: format transmitted once, then chains of 1-5 predicted pictures each retransmitting it or not (UFEP=000), "
+                   "standard and custom sizes; Sorenson: all seven size codes x versions 0/1, I P P|D")
+    return found
+
+
 def run(ctx):
     thorough = ctx.tier == "thorough"
     broken = common.proof_step(ctx, THEOREMS, BRIDGES, allowed_axioms=common.REALS_AXIOMS)
@@ -366,6 +457,7 @@ def run(ctx):
               exhaustive=True,
               note="exhaustive per field family (counts in field_families) with the other fields at defaults, plus seeded cross-field cases; "
                    "every header is followed by a 9-byte trailer so that the position after the header is observed as the next 64 bits")
+    found = run_decoded_pictures(ctx, thorough, broken) or found
     ctx.cov["rule"] = ("headers are produced by my encoder of H.263 5.1 / the Sorenson header from field values; the expected result is the "
                        "canonical rendering of those field values (or the error for wrong marker bits / unsupported fields); non-trivial = distinct expected result")
     if len(broken) > 3:
@@ -387,5 +479,11 @@ def replay(ctx, path):
         bad = li != r["spec"]
         print("REPRODUCED" if bad else "NOT-REPRODUCED")
         return 1 if bad else 0
+    if r.get("kind") == "decoded-picture":
+        from vlib import decsuite
+        io = decsuite.run_impl(ctx, "replay", [(0, r["options"], r["ops"])])
+        print("implementation:", " | ".join(t[:150] for t in io[0]))
+        print("spec:", r["spec"])
+        return 1
     print("replay names broken obligations only:", r.get("names"))
     return 1
